@@ -112,6 +112,74 @@ func skeleton(g *genCtx, fd *ast.FuncDecl) (conds []string, sites []string) {
 	return
 }
 
+// simpleStmts lists, in source order, every assignment, inc/dec, send, expression statement,
+// declaration, go and defer statement of fn (everything that is not control structure).
+func simpleStmts(g *genCtx, fd *ast.FuncDecl) (out []string) {
+	ast.Inspect(fd.Body, func(n ast.Node) bool {
+		switch t := n.(type) {
+		case *ast.FuncLit:
+			out = append(out, "func-literal")
+			return true
+		case *ast.AssignStmt, *ast.IncDecStmt, *ast.SendStmt, *ast.ExprStmt, *ast.DeclStmt, *ast.GoStmt, *ast.DeferStmt:
+			src := nodeSrc(g, t.(ast.Node))
+			if i := strings.Index(src, "func("); i >= 0 {
+				src = src[:i] + "func(…)" // bodies are listed statement by statement
+			}
+			out = append(out, strings.Join(strings.Fields(src), " "))
+		}
+		return true
+	})
+	return
+}
+
+// functions whose every simple statement is part of the tie (aliasing / ordering matters).
+var stmtFuncs = []string{
+	"state.clone", "path.clone", "state.removeHandler", "state.appendHandler", "state.addConnHandler", "path.delRule",
+	"Mux.registerService", "Mux.RegisterConn", "Mux.DropConn", "Mux.loadState", "Mux.storeState",
+}
+
+// writerOrder: the order of lock / load / modify / store / unlock in a writer function
+// (a deferred Unlock runs at return, i.e. last).
+func writerOrder(g *genCtx, fd *ast.FuncDecl) []string {
+	var out []string
+	deferred := false
+	seen := map[string]bool{}
+	add := func(k string) {
+		if !seen[k] {
+			seen[k] = true
+			out = append(out, k)
+		}
+	}
+	ast.Inspect(fd.Body, func(n ast.Node) bool {
+		switch t := n.(type) {
+		case *ast.DeferStmt:
+			if strings.HasSuffix(nodeSrc(g, t.Call.Fun), ".mu.Unlock") {
+				deferred = true
+				return false
+			}
+		case *ast.CallExpr:
+			fn := nodeSrc(g, t.Fun)
+			switch {
+			case strings.HasSuffix(fn, ".mu.Lock"):
+				add("lock")
+			case strings.HasSuffix(fn, ".mu.Unlock"):
+				add("unlock")
+			case strings.HasSuffix(fn, ".loadState"):
+				add("load")
+			case strings.HasSuffix(fn, ".storeState"):
+				add("store")
+			case fn == "s.appendHandler" || fn == "s.addConnHandler" || fn == "s.removeHandler":
+				add("modify")
+			}
+		}
+		return true
+	})
+	if deferred {
+		out = append(out, "unlock")
+	}
+	return out
+}
+
 func leanStrListML(xs []string) string {
 	if len(xs) == 0 {
 		return "[]"
@@ -148,6 +216,57 @@ func genConds(g *genCtx, lean string, facts map[string]interface{}) error {
 		fmt.Fprintf(&sb, "/-- control skeleton of `%s`. -/\ndef conds_%s : List String := %s\n\n", fn, leanIdent(fn), leanStrListML(conds))
 		fmt.Fprintf(&sb, "/-- index / slice / type-assertion / panic sites of `%s`. -/\ndef sites_%s : List String := %s\n\n", fn, leanIdent(fn), leanStrListML(sites))
 	}
+	for _, fn := range stmtFuncs {
+		var st []string
+		if fd := g.funcs[fn]; fd == nil {
+			st = []string{"<missing>"}
+		} else {
+			st = simpleStmts(g, fd)
+		}
+		fmt.Fprintf(&sb, "/-- every simple statement of `%s`, in source order. -/\ndef stmts_%s : List String := %s\n\n", fn, leanIdent(fn), leanStrListML(st))
+	}
+	sb.WriteString("/-- order of lock / load / modify / store / unlock in the three writer calls. -/\ndef writerOrder : List (String × List String) := [\n")
+	for i, fn := range []string{"Mux.registerService", "Mux.RegisterConn", "Mux.DropConn"} {
+		wo := []string{"<missing>"}
+		if fd := g.funcs[fn]; fd != nil {
+			wo = writerOrder(g, fd)
+		}
+		qs := make([]string, len(wo))
+		for j, w := range wo {
+			qs[j] = fmt.Sprintf("%q", w)
+		}
+		sep := ","
+		if i == 2 {
+			sep = ""
+		}
+		fmt.Fprintf(&sb, "  (%q, [%s])%s\n", fn, strings.Join(qs, ", "), sep)
+	}
+	sb.WriteString("]\n\n")
+	// every function that loads the published state, with the number of loads: a request must
+	// be resolved against ONE snapshot.
+	sb.WriteString("/-- functions (outside the verif hooks) that call loadState, with the number of calls. -/\ndef stateLoads : List (String × Nat) := [\n")
+	var loads []string
+	var fns []string
+	for fn := range g.funcs {
+		fns = append(fns, fn)
+	}
+	sort.Strings(fns)
+	for _, fn := range fns {
+		if strings.HasPrefix(fn, "Verif") || strings.Contains(fn, ".Verif") {
+			continue
+		}
+		n := 0
+		ast.Inspect(g.funcs[fn].Body, func(x ast.Node) bool {
+			if c, ok := x.(*ast.CallExpr); ok && strings.HasSuffix(nodeSrc(g, c.Fun), ".loadState") {
+				n++
+			}
+			return true
+		})
+		if n > 0 {
+			loads = append(loads, fmt.Sprintf("  (%q, %d)", fn, n))
+		}
+	}
+	sb.WriteString(strings.Join(loads, ",\n") + "\n]\n\n")
 	sb.WriteString("end Larking.Gen.Skel\n")
 	facts["skeletons"] = all
 	return writeIfChanged(filepath.Join(lean, "Larking/Gen/Skel.lean"), sb.String())
